@@ -90,6 +90,7 @@ func New[T any](
 	tree.node.root = tree
 	tree.node.handlers = map[string]T{
 		http.MethodOptions: tree.optionsBuilder(tree.node),
+		methodNotAllowed:   tree.methodNotAllowedBuilder(tree.node),
 	}
 
 	if lock {
